@@ -153,8 +153,41 @@ let freeze_counts np nb c =
   fun i j -> let i = int_of_z i and j = int_of_z j in
     if 0 <= i && i < np && 0 <= j && j < nb then a.(i).(j) else Z0
 
+let bits_of_psel (q : psel) k =
+  let b v i = if v then 1 lsl (k + i) else 0 in
+  b q.s_time 0 lor b q.s_pos 1 lor b q.s_dir 2 lor b q.s_vol 3 lor b q.s_energy 4
+let bits_of_selection (s : selection) =
+  let b v i = if v then 1 lsl i else 0 in
+  bits_of_psel s.s_pre 0 lor bits_of_psel s.s_post 5 lor b s.s_event 10 lor b s.s_parent 11
+  lor b s.s_nsteps 12 lor b s.s_action 13 lor b s.s_steplen 14 lor b s.s_particle 15 lor b s.s_edep 16
+
+(* "params" mode: the StepParams constructor (coq/C17/Multi.v, step_params_build)
+   argv: params nvol nif { selbits nonzero ndet (vol det)* }* *)
+let params_mode (a : string array) =
+  let nvol = int_of_string a.(2) in
+  let nif = int_of_string a.(3) in
+  let pos = ref 4 in
+  let next () = let x = int_of_string a.(!pos) in incr pos; x in
+  let fs = List.init nif (fun _ ->
+      let sel = next () in
+      let nz = next () in
+      let nd = next () in
+      let det = List.init nd (fun _ -> let v = next () in let d = next () in (z_of_int v, z_of_int d)) in
+      { f_sel = selection_of_bits sel; f_det = det; f_nonzero = (nz = 1) }) in
+  match step_params_build (nat_of_int nvol) fs with
+  | Inl ErrNoData -> print_endline "MERROR nodata"
+  | Inl ErrDuplicateVolume -> print_endline "MERROR dup"
+  | Inl ErrMixedDetectors -> print_endline "MERROR mixed"
+  | Inr p ->
+    Printf.printf "MPARAMS %d %d %d%s\n" (bits_of_selection p.p_sel) (if p.p_nonzero then 1 else 0)
+      (List.length p.p_detector)
+      (String.concat "" (List.map (fun d -> " " ^ pr_idopt d) p.p_detector))
+
 let () =
-  (* argv: selbits nonzero ncalo np nactions stepdiag_nbins  ndetmap d0 d1 ... *)
+  if Array.length Sys.argv > 1 && Sys.argv.(1) = "params" then (params_mode Sys.argv; exit 0)
+
+let () =
+  (* argv: selbits nonzero ncalo np nactions stepdiag_nbins  ndetmap d0 d1 ... [nstreams mult off] *)
   let a = Sys.argv in
   let selbits = int_of_string a.(1) in
   let nonzero = a.(2) = "1" in
@@ -166,10 +199,19 @@ let () =
   let detmap = List.init ndet (fun i ->
       let d = int_of_string a.(8 + i) in if d < 0 then None else Some (z_of_int d)) in
   let p = { p_sel = selection_of_bits selbits; p_detector = detmap; p_nonzero = nonzero } in
+  (* stream schedule: the process_steps / diagnostic calls of iteration [it] go to
+     stream (it * mult + off) mod nstreams *)
+  let nstreams, smult, soff =
+    if Array.length a >= 8 + ndet + 3
+    then int_of_string a.(8 + ndet), int_of_string a.(9 + ndet), int_of_string a.(10 + ndet)
+    else 1, 0, 0 in
+  let stream_of it = nat_of_int ((it * smult + soff) mod nstreams) in
+  let calo_calls = ref [] and post_calls = ref [] in
   let rows = ref [] in
   let started = ref false in
   let pres = ref [] and posts = ref [] in
   let cur = ref (-1) in
+  let all_posts = ref [] in      (* (iteration number, ground-truth posts), newest first *)
   let calo = ref (tally0 fzero) in
   let act = ref counts0 and act_skip = ref counts0 and sdg = ref counts0 in
   let flush_iter () =
@@ -188,6 +230,9 @@ let () =
       act := freeze_counts np nact (action_step false post_l !act);
       act_skip := freeze_counts np nact (action_step true post_l !act_skip);
       if nbins > 0 then sdg := freeze_counts np nbins (stepdiag_accum (z_of_int nbins) post_l !sdg);
+      all_posts := (!cur, post_l) :: !all_posts;
+      if has_det p && ncalo > 0 then calo_calls := (stream_of !cur, rows') :: !calo_calls;
+      post_calls := (stream_of !cur, post_l) :: !post_calls;
       pres := []; posts := []
     end in
   (try
@@ -209,6 +254,44 @@ let () =
     done
   with End_of_file -> ());
   flush_iter ();
+  (* ---- stepping-loop step counter (coq/C17/Loop.v, core_slot).  The per-slot
+     inputs (initialised at start / killed / secondary takes the slot at end) are
+     inferred from the ground truth; the model then predicts, for every occupied
+     slot of every iteration, (killed, track, event, particle, num_steps). *)
+  let iters = Array.of_list (List.rev !all_posts) in
+  if Array.length iters > 0 then begin
+    let nslots = List.length (snd iters.(0)) in
+    let sigma = Array.make nslots None in
+    let nsec = ref 0 and ninit = ref 0 in
+    let key_of b = ((b.b_event, b.b_track), b.b_particle) in
+    Array.iteri (fun t (itno, post_l) ->
+        let next = if t + 1 < Array.length iters then Some (Array.of_list (snd iters.(t + 1))) else None in
+        List.iteri (fun s b ->
+            let active = b.b_status <> Inactive in
+            let init = if sigma.(s) = None && active then Some (key_of b) else None in
+            let kill = (b.b_status = Killed) in
+            let sec =
+              if not kill then None else
+                match next with
+                | Some nx when s < Array.length nx ->
+                  let b' = nx.(s) in
+                  if b'.b_status <> Inactive && b'.b_parent = b.b_track && b'.b_event = b.b_event
+                  then Some (key_of b') else None
+                | _ -> None in
+            if sec <> None then incr nsec;
+            if init <> None then incr ninit;
+            let (st', orec) = core_slot sigma.(s) ((init, kill), sec) in
+            sigma.(s) <- st';
+            (match orec with
+             | None -> ()
+             | Some ((((ev, tr), pa), n), k) ->
+               Printf.printf "MLOOP %d %d %d %s %s %s %s\n" itno s (if k then 1 else 0)
+                 (pr_z tr) (pr_z ev) (pr_z pa) (pr_z n)))
+          post_l)
+      iters;
+    Printf.printf "MLOOPEND %d %d %d\n"
+      (Array.fold_left (fun a st -> if st = None then a else a + 1) 0 sigma) !ninit !nsec
+  end;
   if ncalo > 0 then
     print_endline ("MCALO " ^ string_of_int ncalo ^ " "
                    ^ String.concat " " (List.map string_of_f (tally_list (nat_of_int ncalo) !calo)));
@@ -216,6 +299,17 @@ let () =
     print_endline (tag ^ " " ^ string_of_int np ^ " " ^ string_of_int n2 ^ " "
                    ^ String.concat " " (List.concat_map (List.map pr_z)
                                           (counts_table (nat_of_int np) (nat_of_int n2) c))) in
+  (* merged over the streams (coq/C17/Multi.v: calo_total, counts_total) *)
+  if ncalo > 0 then
+    print_endline ("MCALOTOTAL " ^ string_of_int ncalo ^ " "
+                   ^ String.concat " " (List.map string_of_f
+                                          (tally_list (nat_of_int ncalo)
+                                             (calo_total fzero fadd (nat_of_int nstreams) (List.rev !calo_calls)))));
+  pr_counts "MACTIONTOTAL" nact
+    (counts_total (fun ps c -> action_accum ps c) (nat_of_int nstreams) (List.rev !post_calls));
+  if nbins > 0 then
+    pr_counts "MSTEPDIAGTOTAL" nbins
+      (counts_total (fun ps c -> stepdiag_accum (z_of_int nbins) ps c) (nat_of_int nstreams) (List.rev !post_calls));
   pr_counts "MACTION" nact !act;
   pr_counts "MACTIONSKIP" nact !act_skip;
   if nbins > 0 then pr_counts "MSTEPDIAG" nbins !sdg
